@@ -414,6 +414,7 @@ for _cls, _mod in (('Socket', 'socket'), ('AsyncSocket', 'async_socket')):
     c.modifies(*WS_MOD)
     c.loop(1 if _cls == 'Socket' else 0, invariants=[
         ('steady-state', 'self.upgraded and not self.upgrading and self.connected'),
+        ('closed-implies-closing', 'implies(self.closed, self.closing)'),
         ('events-only-grow', 'grows(events, old(events))'),
         ('spawned-only-grow', 'grows(spawned, old(spawned))'),
         ('queue-wf', 'self.queue.unf >= len(self.queue.items)'),
